@@ -34,7 +34,7 @@ SEARCH = {"flat": ["/src"], "deep": ["/src"], "two": ["/src1", "/src2"], "mirror
 
 MDIMS = {
     "version": [1, 2, 3],
-    "shape": ["single", "flat2", "samedir2", "nested3", "samename2", "ungrouped3", "order2", "selfname", "selfdir"] +
+    "shape": ["single", "dir1", "flat2", "samedir2", "nested3", "samename2", "ungrouped3", "order2", "selfname", "selfdir"] +
              sorted(k for k in SHAPES if "~" in k and k.split("~")[0] == "flat2"),
     "layout": sorted(LAYOUTS),
     "decoy": ["none", "before", "after"],
